@@ -69,6 +69,8 @@ class _T(object):
     def New(cls): return Ty('New', cls)          # `self` of an __init__: a fresh record
     @staticmethod
     def Dict(k, v): return Ty('Dict', k, v)      # symbolic finite map with insertion order not observed
+    @staticmethod
+    def ODict(k, v): return Ty('ODict', k, v)    # the same with the insertion order of the keys tracked (dicts that are iterated over)
 T = _T
 
 # ----------------------------------------------------------------------------------
@@ -131,7 +133,9 @@ class PyDict(V):
 
 class SymDict(V):
     """finite map with symbolic keys: has : K -> Bool, get : K -> V (z3 arrays), plus key sort/elem types"""
-    def __init__(self, has, get, kty, vty): self.has, self.get, self.kty, self.vty = has, get, kty, vty
+    def __init__(self, has, get, kty, vty, order=None):
+        self.has, self.get, self.kty, self.vty = has, get, kty, vty
+        self.order = order      # z3 Seq of keys in insertion order when tracked (T.ODict), else None: iteration order then unspecified
 
 class SymSet(V):
     """set with symbolic members: has : K -> Bool"""
@@ -155,6 +159,10 @@ class Dual(V):
     """an attribute used by some callers as a callable and by others as a dict of callables
     (EAMPotential.electronDensityFunction): both views are carried"""
     def __init__(self, fn, dict_): self.fn, self.dict = fn, dict_
+
+class ConstFactory(V):
+    """a callable named by a contract (abstract_globals) whose call returns a fixed value"""
+    def __init__(self, result): self.result = result
 
 class Obj(V):
     def __init__(self, z, cls): self.z, self.cls = z, cls
